@@ -419,7 +419,7 @@ fn c17(args: &[String]) {
                     }
                 }
                 // family 6: every sequence of slot kinds (reader state machine)
-                for len in 1..=(if thorough { 6usize } else { 5 }) {
+                for len in 1..=(if thorough { 7usize } else { 5 }) {
                     let count = family6_count(len);
                     let mut idx = t as u64;
                     while idx < count {
